@@ -716,7 +716,7 @@ def describe(c):
     if c["kind"] == "x":
         return "x_parse_color(%r)" % txt(c["spec"])
     cfg = c["cfg"]
-    flags = ",".join(k for k in ("swap", "termux") if cfg[k]) + ("" if cfg["enabled"] else ",queries-disabled")
+    flags = ",".join([k for k in ("swap", "termux") if cfg[k]] + ([] if cfg["enabled"] else ["queries-disabled"]))
     head = "%s %s [%dx%d cells, %dx%d px%s%s%s]" % (
         c["kind"], c["op"], cfg["cols"], cfg["rows"], cfg["xpix"], cfg["ypix"], "," + flags if flags else "",
         ", TERM_PROGRAM=%r/%r" % (cfg["env_name"], cfg["env_version"]) if cfg["env_name"] is not None else "",
